@@ -738,6 +738,14 @@ func init() {
 			r := first[i]
 			fail := func(sig, why string) {
 				kind := sig
+				if m := focusModel[d.src]; m != nil {
+					// a document on which the scanner model and the implementation differ: the
+					// failure is reported when the model's own result does not fail alike
+					if msig, _ := evalResult(c, d.src, *m, nil); msig == sig {
+						c.Count("focus documents failing alike with the model's result (not attributed)")
+						return
+					}
+				}
 				if d.risk != "" {
 					// a construct on which the hand-written scanner is known to be able to
 					// disagree with CommonMark: one signature per construct
